@@ -52,7 +52,7 @@ STAGES = ('recon', 'create', 'decomp', 'dispatch', 'deser', 'fn', 'ser', 'redire
 # in protocol / out protocol pairs exercised (every protocol family on both sides)
 PAIRS = [('xml', 'xml'), ('soap11', 'soap11'), ('json', 'json'), ('yaml', 'yaml'), ('msgpack', 'msgpack'),
          ('http', 'json'), ('http', 'xml'), ('json', 'soap11'), ('xml', 'json'), ('msgpackrpc', 'msgpackrpc')]
-REQUESTS = ['ok', 'malformed', 'bad_envelope', 'unknown_method', 'invalid_arg', 'too_long']
+REQUESTS = ['ok', 'malformed', 'undecodable', 'bad_envelope', 'unknown_method', 'invalid_arg', 'too_long']
 FNS = ['ok', 'fault', 'other', 'nul', 'redirect_ok', 'redirect_fail']
 
 
@@ -333,6 +333,7 @@ def request_bytes(inp, kind):
     if inp == 'xml':
         return {'ok': (b'<f xmlns="tns"><x>3</x></f>', '/', ''),
                 'malformed': (b'<f xmlns="tns"><x>3</x>', '/', ''),
+                'undecodable': (b'<f xmlns="tns"><x>\xff\xfe</x></f>', '/', ''),     # not UTF-8
                 'unknown_method': (b'<g xmlns="tns"/>', '/', ''),
                 'invalid_arg': (b'<f xmlns="tns"><x>zz</x></f>', '/', '')}.get(kind)
     if inp == 'soap11':
@@ -340,6 +341,7 @@ def request_bytes(inp, kind):
             return ('<e:Envelope xmlns:e="%s"><e:Body>%s</e:Body></e:Envelope>' % (SOAP_ENV, inner)).encode()
         return {'ok': (env('<f xmlns="tns"><x>3</x></f>'), '/', ''),
                 'malformed': (b'<e:Envelope', '/', ''),
+                'undecodable': (env('<f xmlns="tns"><x>@@</x></f>').replace(b'@@', b'\xff\xfe'), '/', ''),
                 'bad_envelope': (b'<f xmlns="tns"><x>3</x></f>', '/', ''),
                 'unknown_method': (env('<g xmlns="tns"/>'), '/', ''),
                 'invalid_arg': (env('<f xmlns="tns"><x>zz</x></f>'), '/', '')}.get(kind)
@@ -348,11 +350,15 @@ def request_bytes(inp, kind):
     if inp == 'json':
         if kind == 'malformed':
             return (b'{"f": ', '/', '')
+        if kind == 'undecodable':
+            return (b'{"f": {"x": "caf\xe9"}}', '/', '')          # well-formed JSON text in latin-1, not UTF-8
         return (json.dumps(docs[kind]).encode(), '/', '') if kind in docs else None
     if inp == 'yaml':
         import yaml
         if kind == 'malformed':
             return (b'{f: [', '/', '')
+        if kind == 'undecodable':
+            return (b'f: {x: "caf\xe9"}', '/', '')
         return (yaml.safe_dump(docs[kind]).encode(), '/', '') if kind in docs else None
     if inp == 'msgpack':
         import msgpack
